@@ -195,7 +195,11 @@ class Built:
                 for attr, prop in props:
                     ns[attr] = prop
 
-            cls = types.new_class(entry["name"], (base,), kwds, body)
+            if entry.get("inline") and not entry.get("base"):
+                # the other public way to declare a model
+                cls = Object.inline(entry["name"], properties=dict(props), **kwds)
+            else:
+                cls = types.new_class(entry["name"], (base,), kwds, body)
             for key, val in entry.get("post", []):
                 setattr(cls, key, self.kw_value(key, val))
             self.classes[cid] = cls
